@@ -110,6 +110,27 @@ SEEDS = {
              "COPY .. FROM whose reader fails by itself (malformed record, missing file): the statement returns Ok and the chunks read so far are committed", ["C15"]),
     "C18c": ("C18", "src/storage/secondary/index.rs ColumnIndex::from_bytes: decodes exactly `length` entries (footer field outside the checksum), the count check is gone",
              "a column spanning >= 2 blocks and a bit flip that LOWERS the block count in the .idx footer to a non-zero value: the trailing blocks' rows are silently missing", ["C18"]),
+    # ---- round 6
+    "C02c": ("C02", "src/executor/limit.rs: `processed += cardinality` moved after the `start >= end` skip (the same site as round 1's C12 seed, found independently for C02)",
+             "LIMIT/OFFSET without ORDER BY (planned as Limit) over an input of >= 2 chunks with OFFSET >= size of the first chunk", ["C02", "C12", "C01"]),
+    "C03d": ("C03", "src/storage/secondary/manifest.rs reopen: the re-opened (compacted) manifest file is no longer positioned at its end",
+             "a reopen of a non-empty database (manifest rewritten and re-opened) followed by any logged write in that session and another reopen: the new record overwrites the head of the manifest", ["C03", "C04"]),
+    "C05c": ("C05", "src/storage/secondary/transaction.rs scan: the merge iterator is given the TABLE-level key column ids instead of their positions in the scanned column list (rebased onto the sorted-scan fix; patch.orig.diff is the agent's original)",
+             "a table whose primary key is not its first column (or a scan list that omits / reorders earlier columns), >= 2 row-sets with interleaved keys, an ordered scan", ["C05", "C12", "C07"]),
+    "C09c": ("C09", "src/storage/secondary/compactor.rs: DeleteDV records are logged for every row-set of the table, not only the selected (merged) ones",
+             "a partial compaction (some row-sets exceed the size limit and are left alone) of a table whose unselected row-set has a delete vector: its deleted rows reappear", ["C09", "C07"]),
+    "C12c": ("C12", "src/executor/top_n.rs: the last `limit` rows are popped from the heap instead of sorting it and skipping `offset`",
+             "top-N (ORDER BY + LIMIT/OFFSET) with fewer than offset + limit input rows, or OFFSET without LIMIT", ["C12", "C11", "C01", "C02"]),
+    "C13c": ("C13", "src/planner/rules/range.rs analyze_range And: ranges are merged when they are on columns of the same TABLE (column id ignored)",
+             "a conjunction of a key range and a range on another column bounded on the opposite side (k >= c1 AND v < c2), key conjunct first", ["C13", "C01"]),
+    "C16c": ("C16", "src/array/ops.rs cast Int16 -> Int64 produces an Int32 array",
+             "CAST(smallint AS BIGINT) (explicit, or implicit: SMALLINT op BIGINT, SMALLINT join key against BIGINT, INSERT of a SMALLINT expression into a BIGINT column)", ["C16", "C17", "C14"]),
+    "C17c": ("C17", "src/planner/rules/plan.rs pushdown-proj-topn: the order keys are no longer counted as used columns",
+             "ORDER BY <column that is not selected> LIMIT n (top-N) under a projection: the pruned child does not produce the key", ["C17", "C01", "C12"]),
+    "C19c": ("C19", "src/array/ops.rs cmp!: strings compare with trailing blanks trimmed (PAD SPACE), while DataValue Ord/Eq/Hash stay exact (rebased; patch.orig.diff is the agent's original)",
+             "two strings that differ only in trailing blanks: `=` / `<` in a filter or nested-loop join disagree with GROUP BY / DISTINCT / hash join / ORDER BY", ["C19", "C14"]),
+    "C20c": ("C20", "src/types/interval.rs hours(): `% 24` (the printed form drops whole days of the millisecond part)",
+             "an INTERVAL whose time part is >= 24 hours ('30 hours'): COPY TO writes '6 hours'; both tables print alike, so only a comparison by value sees it", ["C20", "C19"]),
 }
 
 
